@@ -9,12 +9,12 @@ from .core import Broken
 REPLICAS2 = ["A", "B"]
 
 
-def mc_cfg(c, name, replicas, nbug, maxcommit, rankdir, restart, invariants, props=True, loaderless=False):
+def mc_cfg(c, name, replicas, nbug, maxcommit, rankdir, restart, invariants, props=True, loaderless=False, remotes=("origin",)):
     d = c.specdir()
     with open(os.path.join(d, name), "w") as f:
-        f.write("SPECIFICATION Spec\nCONSTANTS\n  Replica = {%s}\n  NBug = %d\n  Author = {u1, u2}\n  MaxHop = 1000\n"
+        f.write("SPECIFICATION Spec\nCONSTANTS\n  Replica = {%s}\n  Remote = {%s}\n  NBug = %d\n  Author = {u1, u2}\n  MaxHop = 1000\n"
                 "  MaxCommit = %d\n  RankDir = %d\n  WithRestart = %s\n  LoaderLess = %s\nINVARIANTS %s\n%sCHECK_DEADLOCK FALSE\n" % (
-                    ", ".join(replicas), nbug, maxcommit, rankdir, "TRUE" if restart else "FALSE", "TRUE" if loaderless else "FALSE",
+                    ", ".join(replicas), ", ".join(remotes), nbug, maxcommit, rankdir, "TRUE" if restart else "FALSE", "TRUE" if loaderless else "FALSE",
                     " ".join(invariants), "PROPERTY ActionProps\n" if props else ""))
     return name
 
@@ -24,16 +24,17 @@ ALL_INV = ["AllReadable", "CausalOrder", "NoDupOps", "Converged", "MergeTruthful
 
 def exhaustive(c, invariants, restart=False, loaderless=False):
     """Bounded exhaustive runs; returns nothing, raises Broken on a model-level error."""
+    one, two = ("origin",), ("origin", "backup")
     if c.tier == "quick":
-        runs = [(["A", "B"], 1, 5, 1)]
+        runs = [(["A", "B"], 1, 5, 1, one), (["A", "B"], 1, 4, 1, two)]
     else:
-        runs = [(["A", "B"], 1, 6, 1), (["A", "B"], 1, 5, 2), (["A", "B"], 2, 5, 1), (["A", "B", "C"], 1, 4, 1)]
-    for i, (reps, nbug, maxc, rd) in enumerate(runs):
+        runs = [(["A", "B"], 1, 6, 1, one), (["A", "B"], 1, 5, 2, one), (["A", "B"], 2, 5, 1, one), (["A", "B", "C"], 1, 4, 1, one), (["A", "B"], 1, 5, 1, two)]
+    for i, (reps, nbug, maxc, rd, rem) in enumerate(runs):
         if restart:
             maxc -= 1
-        cfg = mc_cfg(c, "MC_GitBug_run%d.cfg" % i, reps, nbug, maxc, rd, restart, invariants, loaderless=loaderless)
+        cfg = mc_cfg(c, "MC_GitBug_run%d.cfg" % i, reps, nbug, maxc, rd, restart, invariants, loaderless=loaderless, remotes=rem)
         c.tlc_model("MC_GitBug", cfg, timeout=3000,
-                    label="%d replicas, %d bug(s), <=%d commits, rankdir %d, restart=%s" % (len(reps), nbug, maxc, rd, restart))
+                    label="%d replicas, %d remote(s), %d bug(s), <=%d commits, rankdir %d, restart=%s" % (len(reps), len(rem), nbug, maxc, rd, restart))
 
 
 def catalogue():
@@ -43,8 +44,8 @@ def catalogue():
     two = [{"au": "u2", "n": 1}]
     mixed = [{"au": "u1", "n": 1}, {"au": "u2", "n": 2}]
 
-    def step(act, r, b=0, runs=None, loaders=False):
-        return {"act": act, "r": r, "b": b, "runs": runs or [], "loaders": loaders}
+    def step(act, r, b=0, runs=None, loaders=False, m="origin"):
+        return {"act": act, "r": r, "b": b, "runs": runs or [], "loaders": loaders, "m": m}
 
     base = [step("NewBug", "A", runs=one), step("Push", "A"), step("Fetch", "B"), step("MergeAll", "B")]
     for la in range(0, 4):
@@ -70,14 +71,33 @@ def catalogue():
          step("Edit", "A", 2, one), step("Push", "C"), step("Fetch", "A"), step("MergeAll", "A"), step("Push", "A"),
          step("Fetch", "B"), step("MergeAll", "B"), step("Edit", "B", 1, mixed), step("Edit", "C", 1, one), step("Push", "B")]
     scheds.append({"replicas": ["A", "B", "C"], "steps": s, "quiesce": True, "name": "three-replicas"})
+    # two remotes: the replicas exchange over one, over the other, over both in turn; a remote that lags behind the other is pushed
+    # to later (fast-forward) or refused (it holds what the pusher has not merged yet)
+    o, k = "origin", "backup"
+    s = [step("NewBug", "A", runs=one), step("Push", "A", m=k), step("Fetch", "B", m=k), step("MergeAll", "B", m=k), step("Edit", "B", 1, two),
+         step("Push", "B", m=o), step("Edit", "A", 1, mixed), step("Fetch", "A", m=o), step("MergeAll", "A", m=o), step("Read", "A", 1),
+         step("Push", "A", m=o), step("Push", "A", m=k), step("Fetch", "B", m=k), step("MergeAll", "B", m=k), step("Read", "B", 1),
+         step("Fetch", "B", m=o), step("MergeAll", "B", m=o), step("Read", "B", 1)]
+    scheds.append({"replicas": REPLICAS2, "steps": s, "quiesce": True, "name": "two-remotes-relay"})
+    s = [step("NewBug", "A", runs=one), step("NewBug", "B", runs=two), step("Push", "A", m=o), step("Push", "B", m=k), step("Fetch", "A", m=k), step("Fetch", "B", m=o),
+         step("MergeAll", "A", m=k), step("MergeAll", "B", m=o), step("Edit", "A", 2, one), step("Edit", "B", 2, two), step("Edit", "B", 1, two),
+         step("Push", "A", m=k), step("Push", "B", m=k), step("Push", "B", m=o), step("Fetch", "A", m=o), step("MergeAll", "A", m=o), step("MergeAll", "A", m=k),
+         step("Read", "A", 1), step("Read", "A", 2), step("Push", "A", m=k), step("Push", "A", m=o), step("Fetch", "B", m=k), step("MergeAll", "B", m=k),
+         step("MergeAll", "B", m=o), step("Read", "B", 2)]
+    scheds.append({"replicas": REPLICAS2, "steps": s, "quiesce": True, "name": "two-remotes-crossed"})
+    s = [step("NewBug", "C", runs=mixed), step("Push", "C", m=o), step("Fetch", "A", m=o), step("MergeAll", "A", m=o), step("Edit", "A", 1, one), step("Push", "A", m=k),
+         step("Edit", "C", 1, two), step("Push", "C", m=o), step("Fetch", "B", m=k), step("MergeAll", "B", m=k), step("Fetch", "B", m=o), step("MergeAll", "B", m=o),
+         step("Read", "B", 1), step("Push", "B", m=k), step("Push", "B", m=o), step("Fetch", "A", m=k), step("MergeAll", "A", m=k), step("Fetch", "C", m=o),
+         step("MergeAll", "C", m=o), step("Read", "C", 1), step("Read", "A", 1)]
+    scheds.append({"replicas": ["A", "B", "C"], "steps": s, "quiesce": True, "name": "two-remotes-three-replicas"})
     return scheds
 
 
 def restart_catalogue():
     one = [{"au": "u1", "n": 1}]
 
-    def step(act, r, b=0, runs=None, loaders=False):
-        return {"act": act, "r": r, "b": b, "runs": runs or [], "loaders": loaders}
+    def step(act, r, b=0, runs=None, loaders=False, m="origin"):
+        return {"act": act, "r": r, "b": b, "runs": runs or [], "loaders": loaders, "m": m}
     scheds = []
     # one of the two clock files lost: the loader has to rebuild it all the same
     for which in (1, 2):
@@ -97,14 +117,14 @@ def restart_catalogue():
     return scheds
 
 
-def simulate(c, n, replicas, nbug, maxcommit, depth, restart, quiesce=True):
+def simulate(c, n, replicas, nbug, maxcommit, depth, restart, quiesce=True, remotes=("origin",)):
     """TLC -simulate on MBT_GitBug: returns up to n distinct schedules."""
     d = c.specdir()
     cfg = "MBT_GitBug_run.cfg"
     with open(os.path.join(d, cfg), "w") as f:
-        f.write("SPECIFICATION MSpec\nCONSTANTS\n  Replica = {%s}\n  NBug = %d\n  Author = {\"u1\", \"u2\"}\n  MaxHop = 1000000\n"
+        f.write("SPECIFICATION MSpec\nCONSTANTS\n  Replica = {%s}\n  Remote = {%s}\n  NBug = %d\n  Author = {\"u1\", \"u2\"}\n  MaxHop = 1000000\n"
                 "  MaxCommit = %d\n  Depth = %d\n  WithRestart = %s\nINVARIANT Emit\nCHECK_DEADLOCK FALSE\n" % (
-                    ", ".join('"%s"' % r for r in replicas), nbug, maxcommit, depth, "TRUE" if restart else "FALSE"))
+                    ", ".join('"%s"' % r for r in replicas), ", ".join('"%s"' % r for r in remotes), nbug, maxcommit, depth, "TRUE" if restart else "FALSE"))
     out = []
     seen = set()
     rounds = 0
@@ -122,7 +142,7 @@ def simulate(c, n, replicas, nbug, maxcommit, depth, restart, quiesce=True):
     return out[:n]
 
 
-def uniform(c, n, replicas, nbug=3, depth=18, restart=False):
+def uniform(c, n, replicas, nbug=3, depth=18, restart=False, remotes=("origin", "backup")):
     """Schedules drawn uniformly over the action kinds (TLC's simulation picks uniformly among successor states and so mostly
     edits with their many parameter values); which bug exists where is tracked the way the model does, and the trace
     specification judges these schedules like all others."""
@@ -130,15 +150,17 @@ def uniform(c, n, replicas, nbug=3, depth=18, restart=False):
     rnd = random.Random(c.seed * 15485863 + len(replicas))
     runs_choices = [[{"au": "u1", "n": 1}], [{"au": "u2", "n": 2}], [{"au": "u1", "n": 1}, {"au": "u2", "n": 1}], [{"au": "u2", "n": 1}]]
 
-    def step(act, r, b=0, runs=None, loaders=False):
-        return {"act": act, "r": r, "b": b, "runs": runs or [], "loaders": loaders}
+    def step(act, r, b=0, runs=None, loaders=False, m="origin"):
+        return {"act": act, "r": r, "b": b, "runs": runs or [], "loaders": loaders, "m": m}
     out = []
     for k in range(n):
         ref = {r: set() for r in replicas}
-        trk = {r: set() for r in replicas}
-        hub, made, steps = set(), 0, []
+        rems = remotes if k % 2 == 1 else remotes[:1]        # every other schedule uses all the remotes
+        trk = {(r, m): set() for r in replicas for m in rems}
+        hub, made, steps = {m: set() for m in rems}, 0, []
         while len(steps) < depth:
             r = rnd.choice(replicas)
+            m = rnd.choice(rems)
             acts = ["NewBug", "Fetch", "MergeAll"]
             if ref[r]:
                 acts += ["Edit", "Edit", "Read", "Push"]
@@ -156,15 +178,15 @@ def uniform(c, n, replicas, nbug=3, depth=18, restart=False):
             elif a == "Read":
                 steps.append(step("Read", r, rnd.choice(sorted(ref[r]))))
             elif a == "Push":
-                hub |= ref[r]
-                trk[r] |= ref[r]
-                steps.append(step("Push", r))
+                hub[m] |= ref[r]
+                trk[r, m] |= ref[r]
+                steps.append(step("Push", r, m=m))
             elif a == "Fetch":
-                trk[r] |= hub
-                steps.append(step("Fetch", r))
+                trk[r, m] |= hub[m]
+                steps.append(step("Fetch", r, m=m))
             elif a == "MergeAll":
-                ref[r] |= trk[r]
-                steps.append(step("MergeAll", r))
+                ref[r] |= trk[r, m]
+                steps.append(step("MergeAll", r, m=m))
             elif a == "Reopen":
                 steps.append(step("Reopen", r, loaders=True))
             else:
@@ -200,7 +222,7 @@ def execute(c, scheds, tag="w"):
 def trace_cfg(c, name, bind_read, bind_merge, bind_clock, invariants):
     d = c.specdir()
     with open(os.path.join(d, name), "w") as f:
-        f.write("SPECIFICATION TraceSpec\nCONSTANTS\n  Replica = {\"A\", \"B\", \"C\"}\n  NBug = 3\n  Author = {\"u1\", \"u2\"}\n"
+        f.write("SPECIFICATION TraceSpec\nCONSTANTS\n  Replica = {\"A\", \"B\", \"C\"}\n  Remote = {\"origin\", \"backup\"}\n  NBug = 3\n  Author = {\"u1\", \"u2\"}\n"
                 "  MaxHop = 1000000\n  BindRead = %s\n  BindMerge = %s\n  BindClock = %s\nINVARIANTS %s\n"
                 "PROPERTY TraceActionProps\nPOSTCONDITION TraceAccepted\nCHECK_DEADLOCK FALSE\n" % (
                     "TRUE" if bind_read else "FALSE", "TRUE" if bind_merge else "FALSE", "TRUE" if bind_clock else "FALSE",
@@ -279,5 +301,5 @@ def report_failures(c, scheds, failures, classify):
     for sess, idx, reason, event in failures:
         key = classify(event, reason)
         c.report(key, "%s; schedule %s, event #%d: %s" % (reason, scheds[sess].get("name"), idx,
-                                                          json.dumps({k: event[k] for k in ("ev", "r", "b", "status", "returned", "ok", "err", "clk") if k in event})),
+                                                          json.dumps({k: event[k] for k in ("ev", "r", "m", "b", "status", "returned", "ok", "err", "clk") if k in event})),
                  {"schedule": scheds[sess], "event_index": idx, "event": event})
